@@ -114,7 +114,8 @@ def oracle_c08(sc, res):
             #  so a second expiry in the same activation is specified behaviour then)
             ncand = len(t.source.after.get(t.delay, []))
             vios.append(Violation("C08", "after-fired-twice",
-                                  {"internal": t.internal, "candidates_gt1": ncand > 1, "stale_expiry_possible": stale_seen[key]},
+                                  {"internal": t.internal, "candidates_gt1": ncand > 1, "stale_expiry_possible": stale_seen[key],
+                                   "engine": sc["engine"], "preempted": bool(res.meta.get("preempts_done"))},
                                   f"{S} activation {a.idx}: delay {t.delay} fired more than once"))
         # guard must have passed when it elapsed
         if isinstance(t.guard, str):
